@@ -6,6 +6,7 @@ import (
 	"encoding/json"
 	"fmt"
 	"os"
+	"runtime/pprof"
 )
 
 var checks = map[string]func(job *Job, r *Report){
@@ -34,6 +35,11 @@ func Main() {
 		fmt.Fprintln(os.Stderr, "unknown check", job.Check)
 		os.Exit(2)
 	}
+	if pf := os.Getenv("VERIF_CPUPROFILE"); pf != "" {
+		fh, _ := os.Create(pf)
+		pprof.StartCPUProfile(fh)
+		defer pprof.StopCPUProfile()
+	}
 	r := NewReport(&job)
 	f(&job, r)
 	r.Write()
@@ -54,6 +60,50 @@ func Replay(job *Job) int {
 		fmt.Fprintln(os.Stderr, err)
 		return 2
 	}
-	fmt.Fprintln(os.Stderr, "replay kind not supported yet:", head.Kind)
+	switch head.Kind {
+	case "xstate":
+		var rp xReplay
+		if err := json.Unmarshal(b, &rp); err != nil {
+			fmt.Fprintln(os.Stderr, err)
+			return 2
+		}
+		for _, tier := range []string{"quick", "thorough"} {
+			for _, x := range xspecsFor(rp.Check, tier) {
+				if x.Name != rp.Config {
+					continue
+				}
+				var outs []string
+				for i := 0; i < 2; i++ {
+					o := x.RunHistory(rp.History, false)
+					d := "no mismatch"
+					if o.MM != nil {
+						d = o.MM.String()
+					}
+					outs = append(outs, d)
+					fmt.Printf("run %d: [%s] %s -> %s\n", i+1, x.Name, HistString(rp.History), d)
+				}
+				if outs[0] != outs[1] {
+					fmt.Println("REPLAY DIVERGED between the two runs")
+					return 2
+				}
+				if outs[0] == "no mismatch" {
+					return 0
+				}
+				return 1
+			}
+		}
+		fmt.Fprintln(os.Stderr, "no such configuration:", rp.Check, rp.Config)
+		return 2
+	}
+	fmt.Fprintln(os.Stderr, "replay kind not supported:", head.Kind)
 	return 2
+}
+
+// xspecsFor returns the explicit-state specs of a check.
+func xspecsFor(check, tier string) []*XSpec {
+	switch check {
+	case "C01":
+		return c01Specs(tier)
+	}
+	return nil
 }
